@@ -3,6 +3,7 @@
 from __future__ import annotations
 
 import ast
+import re
 
 from ..astutil import attr_chain, call_attr, calls_in, conjuncts, guard_facts, unparse, walk_local
 from ..cfg import CFG
@@ -314,29 +315,42 @@ def check_disjoint_set(idx: Index, rep: Report) -> None:
         raise AnalysisError(f"{f.fq}: expected a single `return <name>`")
     root = rets[0].value.id
     nret = cfg.node_of(rets[0])
-    # the root-finding loop
+    # the returned name is a fixed point of _parent: on every path from each of its definitions to the return an edge
+    # establishes `self._parent[root] == root` (False edge of `!=`, True edge of `==`; the parent may be read through
+    # a walrus), and every definition is the argument or the parent of the previous candidate
     loops = [w for w in walk_local(f.node) if isinstance(w, ast.While)]
-    find_loop = None
-    for w in loops:
-        t = unparse(w.test)
-        if t in (f"self._parent[{root}] != {root}", f"{root} != self._parent[{root}]"):
-            body_ok = any(isinstance(s, ast.Assign) and unparse(s) == f"{root} = self._parent[{root}]" for s in w.body)
-            if body_ok and all(isinstance(s, ast.Assign) and isinstance(s.targets[0], ast.Name) for s in w.body):
-                find_loop = w
-    if find_loop is None:
-        raise AnalysisError(f"{f.fq}: root-finding loop `while self._parent[{root}] != {root}: {root} = self._parent[{root}]` not recognised")
-    ntest = cfg.node_of(find_loop.test)
-    # initial value of root on loop entry derives from the argument
-    init_defs = [d for d in reaching_defs(cfg, root, ntest) if d[0] not in {cfg.node_of(s) for s in find_loop.body}]
-    for nid, val in init_defs:
-        if val is None or unparse(val) != value:
-            bad.append(("start", f"the search for the root starts from `{unparse(val) if val is not None else '?'}`, not from the argument `{value}`"))
-    # root must not be reassigned between loop exit and return
-    for nid, val in reaching_defs(cfg, root, nret):
-        if nid not in {cfg.node_of(s) for s in find_loop.body} and (nid, val) not in init_defs:
-            bad.append(("root-reassigned", f"`{root}` is reassigned after the root-finding loop (line {cfg.nodes[nid].lineno})"))
-    if cfg.path_avoiding(cfg.entry, nret, lambda n: n.id == ntest) is not None:
-        bad.append(("skip", "a path returns without running the root-finding loop"))
+
+    def _strip(x: ast.AST) -> str:
+        return unparse(x.value) if isinstance(x, ast.NamedExpr) else unparse(x)
+
+    def establishes(n_: int, m_: int, lab) -> bool:
+        a_ = cfg.nodes[n_].ast
+        if a_ is None or lab not in ("T", "F") or not isinstance(a_, ast.expr):
+            return False
+        for atom, truth in conjuncts(a_, lab == "T"):
+            if isinstance(atom, ast.Compare) and len(atom.ops) == 1 and isinstance(atom.ops[0], (ast.Eq, ast.NotEq)):
+                sides = {_strip(atom.left), _strip(atom.comparators[0])}
+                if sides == {f"self._parent[{root}]", root} and truth == isinstance(atom.ops[0], ast.Eq):
+                    return True
+        return False
+
+    est_tests = {n_ for n_ in range(len(cfg.nodes)) if any(establishes(n_, m_, lab) for m_, lab in cfg.succ[n_])}
+    if not est_tests:
+        raise AnalysisError(f"{f.fq}: no test of `self._parent[{root}]` against `{root}` found (root-finding loop not recognised)")
+    ntest = min(est_tests)
+    defs_root = reaching_defs(cfg, root, nret)
+    parent_names = {x.target.id for n_ in est_tests for x in ast.walk(cfg.nodes[n_].ast) if isinstance(x, ast.NamedExpr) and isinstance(x.target, ast.Name) and unparse(x.value) == f"self._parent[{root}]"}
+    for nid, val in defs_root:
+        others = {d for d, _ in defs_root if d != nid}
+        if cfg.path_avoiding(nid, nret, lambda n_: n_.id in others, follow_exc=False, edge_ok=lambda n_, m_, lab: not establishes(n_, m_, lab)) is not None:
+            bad.append(("not-fixed-point", f"`{root}` (line {cfg.nodes[nid].lineno}) can be returned without `self._parent[{root}] == {root}` having been established: the result is not the representative"))
+        vt = unparse(val) if val is not None else "?"
+        if vt not in (value, f"self._parent[{root}]") and vt not in parent_names:
+            bad.append(("start", f"the candidate root is set to `{vt}`, which is neither the argument `{value}` nor the parent of the previous candidate"))
+    init_ok = any(val is not None and unparse(val) == value for _, val in reaching_defs(cfg, root, ntest)) or any(val is not None and unparse(val) == value for _, val in defs_root)
+    if not init_ok:
+        bad.append(("start", f"the search for the root does not start from the argument `{value}`"))
+    find_loop = next((w for w in loops if cfg.node_of(w.test) in est_tests), None)
     # every write to _parent stores `root`, after the loop, at a node on the path from value
     for st, key, val in _subscript_stores(f.node, "_parent"):
         ns = cfg.node_of(st)
@@ -361,7 +375,7 @@ def check_disjoint_set(idx: Index, rep: Report) -> None:
                 if nid not in {cfg.node_of(s) for s in loop.body} and (v is None or unparse(v) != value):
                     bad.append(("compress-start", f"compression starts from `{unparse(v) if v is not None else '?'}`, not from `{value}`"))
     # range guard
-    facts = guard_facts(f.node, find_loop)
+    facts = guard_facts(f.node, find_loop if find_loop is not None else rets[0])
     if not any("len(self._parent)" in unparse(t) and not pol for t, pol in facts):
         bad.append(("range", "no range check of the argument before indexing _parent (negative indices would alias)"))
     if bad:
@@ -381,45 +395,60 @@ def check_disjoint_set(idx: Index, rep: Report) -> None:
         bad = []
         pst = _subscript_stores(f.node, "_parent")
         cst = _subscript_stores(f.node, "_count")
-        if len(pst) != 1:
-            raise AnalysisError(f"{f.fq}: expected exactly one _parent store")
-        st, key, val = pst[0]
-        ns = cfg.node_of(st)
-        k, v = resolved_text(cfg, key, ns), resolved_text(cfg, val, ns)
-        if meth == "union_left":
-            if (k, v) != (rr, rl):
-                bad.append(("direction", f"_parent[{k}] = {v}: left-biased union must store _parent[root({rhs})] = root({lhs})"))
-        else:
-            # conditional choice: (l, r) if c else (r, l) through tuple unpacking -> subscript of IfExp
-            choices = _choices(k, v, rl, rr)
-            if choices is None:
+        if not pst:
+            raise AnalysisError(f"{f.fq}: no _parent store")
+        from ..astutil import norm_facts as _nf, text_facts as _tf
+
+        descr = []
+        store_nodes = set()
+        for st, key, val in pst:
+            ns = cfg.node_of(st)
+            store_nodes.add(ns)
+            k, v = resolved_text(cfg, key, ns), resolved_text(cfg, val, ns)
+            descr.append(f"_parent[{k}] = {v}")
+            if meth == "union_left":
+                if (k, v) != (rr, rl):
+                    bad.append(("direction", f"_parent[{k}] = {v}: left-biased union must store _parent[root({rhs})] = root({lhs})"))
+            elif len(pst) == 1:
+                # conditional choice: (l, r) if c else (r, l) through tuple unpacking -> subscript of IfExp
+                choices = _choices(k, v, rl, rr)
+                if choices is None:
+                    bad.append(("direction", f"_parent[{k}] = {v}: must attach one of the two roots under the other"))
+            elif (k, v) not in ((rl, rr), (rr, rl)):
                 bad.append(("direction", f"_parent[{k}] = {v}: must attach one of the two roots under the other"))
-        # equal-roots early return
-        facts = guard_facts(f.node, st)
-        if not any(isinstance(t, ast.Compare) and isinstance(t.ops[0], (ast.Eq, ast.Is)) and not pol and {resolved_text(cfg, t.left, cfg.node_of(t)), resolved_text(cfg, t.comparators[0], cfg.node_of(t))} == {rl, rr} for t, pol in facts):
-            bad.append(("same-set", "the parent store is not guarded by `root(lhs) != root(rhs)` (would create a self-loop free merge count error)"))
-        # count update on the new root
-        if len(cst) != 1:
-            bad.append(("count", f"expected one _count store, found {len(cst)}"))
-        else:
-            cs, ck, cv = cst[0]
-            nc = cfg.node_of(cs)
-            ckt, cvt = resolved_text(cfg, ck, nc), resolved_text(cfg, cv, nc)
-            if ckt != v:
-                bad.append(("count-key", f"_count is updated at `{ckt}` but the new root is `{v}`"))
-            want = {f"self._count[{rl}] + self._count[{rr}]", f"self._count[{rr}] + self._count[{rl}]"}
-            if cvt not in want:
-                bad.append(("count-value", f"_count of the new root becomes `{cvt}`, must be the sum of both root counts"))
+            # equal-roots early return: the store happens only when the roots differ
+            nf = _nf(_tf(f.node, st))
+            differ = any(p_ is False and re.fullmatch(r"(.+) (==|is) (.+)", t_) and {re.fullmatch(r"(.+) (==|is) (.+)", t_).group(1), re.fullmatch(r"(.+) (==|is) (.+)", t_).group(3)} == {rl, rr} for t_, p_ in nf)
+            if not differ:
+                bad.append(("same-set", "the parent store is not guarded by `root(lhs) != root(rhs)` (would create a self-loop free merge count error)"))
+            # the count of the new root (v) is updated to the sum, on the same paths
+            mine = [(cs, ck, cv) for cs, ck, cv in cst if resolved_text(cfg, ck, cfg.node_of(cs)) == v and (len(pst) == 1 or cfg.node_of(cs) in cfg.reachable(ns) or ns in cfg.reachable(cfg.node_of(cs)))]
+            mine = [(cs, ck, cv) for cs, ck, cv in mine if len(pst) == 1 or _nf(_tf(f.node, cs)) == nf]
+            if len(cst) == 0 or not mine:
+                if len(pst) == 1 and len(cst) == 1:
+                    cs, ck, cv = cst[0]
+                    bad.append(("count-key", f"_count is updated at `{resolved_text(cfg, ck, cfg.node_of(cs))}` but the new root is `{v}`"))
+                else:
+                    bad.append(("count", f"no _count update for the new root `{v}`"))
+            else:
+                cs, ck, cv = mine[0]
+                cvt = resolved_text(cfg, cv, cfg.node_of(cs))
+                want = {f"self._count[{rl}] + self._count[{rr}]", f"self._count[{rr}] + self._count[{rl}]"}
+                if cvt not in want:
+                    bad.append(("count-value", f"_count of the new root becomes `{cvt}`, must be the sum of both root counts"))
+        if len(cst) > len(pst):
+            bad.append(("count", f"expected one _count store per merge, found {len(cst)}"))
+        k, v = descr[0].split(" = ")[0][8:-1], descr[0].split(" = ")[1]
         # boolean results
         for ret in [n for n in walk_local(f.node) if isinstance(n, ast.Return)]:
-            merged = cfg.path_avoiding(cfg.entry, cfg.node_of(ret), lambda n: n.id == ns) is None
+            merged = cfg.path_avoiding(cfg.entry, cfg.node_of(ret), lambda n: n.id in store_nodes) is None
             if ret.value is None or not isinstance(ret.value, ast.Constant) or ret.value.value is not merged:
                 bad.append(("result", f"`return {unparse(ret.value) if ret.value else ''}` at line {ret.lineno} does not report whether a merge happened"))
         if bad:
             for kk, m in bad:
                 r5.fail(f.fq, Finding("C12.R5", f.fq, kk, m, f.loc))
         else:
-            r5.ok(f.fq, f"{f.loc} {meth}: _parent[{k}] = {v}")
+            r5.ok(f.fq, f"{f.loc} {meth}: {'; '.join(descr)}")
 
     # ---- R5b add / init
     r5b = rep.rule("C12.R5b", "IntDisjointSet.add/__init__ create singleton roots (parent = own index, count 1)", floor=2)
